@@ -487,6 +487,7 @@ def tags(sc, obs):
     yield "part:occ"
     copied = False
     cell_of = {}
+    copies = set()
     for l, o in zip(sc.lines, obs):
         ws = l.split()
         k = ws[0]
@@ -499,6 +500,9 @@ def tags(sc, obs):
             copied = copied or o.startswith("ok")
             if o.startswith("ok"):
                 B = int(o.split()[1]) - int(ws[1])
+                if int(ws[1]) in copies:
+                    yield "occ:copy:of-a-copy"
+                copies.add(int(o.split()[1]))
                 for a, c in list(cell_of.items()):
                     if a < B:
                         cell_of[a + B] = None if c is None else c + B
